@@ -272,20 +272,40 @@ func H_lifecycle() {
 	if nadd > 1 {
 		_ = wt.Add("/t/a")
 	}
-	verifScriptRead(verifParam("K"), 16) // records may name the watches just added
-	if verifBool("park") {
+	// one record of one of the kinds that matter for the life cycle, possibly naming a watch just added
+	n := verifInt("n")
+	verifAssume(n == 16)
+	verifK.script[0] = verifRead{n: n}
+	verifK.nScript = 1
+	verifK.blockAfter = true
+	kind := verifChoose("record", 7)
+	verifFillBuffer = func(i int, b []byte, n int) {
+		if i != 0 {
+			return
+		}
+		verifConstrainRecords(b, n, 1, 16, false)
+		r := &verifRecs[0]
+		verifAssume(r.ln == 0 && r.cookie == 0)
+		masks := [...]uint32{unix.IN_MODIFY, unix.IN_IGNORED, unix.IN_UNMOUNT, unix.IN_Q_OVERFLOW, unix.IN_DELETE_SELF, unix.IN_MOVE_SELF, unix.IN_ATTRIB | unix.IN_ISDIR}
+		verifAssume(r.mask == masks[kind])
+		if kind != 3 {
+			verifAssume(r.wd == 1 || r.wd == 2 || r.wd == 77)
+		}
+	}
+	park := verifBool("park")
+	if park {
 		verifQuiesce() // let the reader decode and park (pending event / pending error)
 	}
 	// the environment may delete watched files at any time: their marks are destroyed by
 	// the kernel while the IN_IGNORED is still unread
-	if kill := verifChoose("deleted-before-close", 3); kill > 0 {
-		m := &verifK.marks[kill-1]
+	if nadd == 2 && verifBool("deleted-before-close") {
+		m := &verifK.marks[0]
 		if m.state == kLive {
 			m.state = kDying
 			verifReach("lifecycle-deleted-before-close")
 		}
 	}
-	two := verifBool("two-closers")
+	two := !park && verifBool("two-closers")
 	d := make(chan error, 1)
 	if two {
 		go func() { d <- wt.Close() }()
